@@ -36,7 +36,12 @@ for sid in sorted(os.listdir(os.path.join(V, "seeded"))):
         print(sid, prop, "rc=%d" % p.returncode, "%ds" % secs, "failed:", ",".join(f[0] for f in failed), "| undecided:", len(undec), flush=True)
     finally:
         subprocess.run(["git", "-C", "/repo", "worktree", "remove", "--force", wt])
-if not only:
+if only:
+    # partial sweep: merge the new rows into the recorded results (replace rows of the same seed, keep the others)
+    old = json.load(open(os.path.join(V, "seeded", "results.json")))
+    new_ids = {r["seed"] for r in rows}
+    rows = sorted([r for r in old if r["seed"] not in new_ids] + rows, key=lambda r: r["seed"])
+if True:
     json.dump(rows, open(os.path.join(V, "seeded", "results.json"), "w"), indent=1)
     with open(os.path.join(V, "seeded", "RESULTS.md"), "w") as f:
         f.write("| seed | property | exit | obligations that fail (engine, label) | undecided (lost anchor / unsupported) |\n|---|---|---|---|---|\n")
